@@ -97,7 +97,8 @@ func (x *Unit) evalBuiltin(st *State, call *ast.CallExpr, name string, n int) []
 		case *types.Basic:
 			return []Val{{App(SInt, "gs.len", v.T), intT}}
 		case *types.Map:
-			return []Val{{x.u.MapLen(v.T), intT}}
+			x.assume(st, Cmp(">=", x.u.MapLen(x.mapContent(st, v)), IntLit(0)))
+			return []Val{{x.define("maplen", x.mapLenT(st, v)), intT}}
 		case *types.Array:
 			return []Val{{IntLit(tt.Len()), intT}}
 		case *types.Chan:
@@ -175,8 +176,7 @@ func (x *Unit) evalBuiltin(st *State, call *ast.CallExpr, name string, n int) []
 			if len(call.Args) > 1 {
 				x.eval(st, call.Args[1])
 			}
-			z := x.zero(t)
-			return []Val{{x.u.MkMap(z.Sort, False, IntLit(0), x.u.MapDom(z.T), x.u.MapVal(z.T)), t}}
+			return []Val{x.newMap(st, t, x.emptyMapContent(t))}
 		case *types.Chan:
 			if len(call.Args) > 1 {
 				x.eval(st, call.Args[1])
@@ -232,16 +232,15 @@ func (x *Unit) evalBuiltin(st *State, call *ast.CallExpr, name string, n int) []
 		}
 		return []Val{{nn, intT}}
 	case "delete":
-		lv := x.lvalueOrNil(st, call.Args[0])
 		m := x.eval(st, call.Args[0])
 		mt := under(m.Typ).(*types.Map)
 		k := x.convert(st, x.eval(st, call.Args[1]), mt.Key())
-		if lv != nil {
-			had := And(Not(x.u.MapNil(m.T)), Select(x.u.MapDom(m.T), k.T))
-			nl := Ite(had, App(SInt, "-", x.u.MapLen(m.T), IntLit(1)), x.u.MapLen(m.T))
-			nm := x.u.MkMap(m.Sort, x.u.MapNil(m.T), nl, Store(x.u.MapDom(m.T), k.T, False), x.u.MapVal(m.T))
-			x.writeLV(st, lv, Val{x.define("mapdel", nm), m.Typ})
-		}
+		c := x.mapContent(st, m)
+		had := x.mapHas(st, m, k.T)
+		nl := Ite(had, App(SInt, "-", x.u.MapLen(c), IntLit(1)), x.u.MapLen(c))
+		nm := x.u.MkMap(c.Sort, False, nl, Store(x.u.MapDom(c), k.T, False), x.u.MapVal(c))
+		x.assume(st, Not(x.mapIsNil(st, m))) // deleting from a nil map is a no-op; keep the contents model simple
+		x.writeLV(st, x.mapLV(m), Val{x.define("mapdel", nm), m.Typ})
 		return nil
 	case "panic":
 		if len(call.Args) == 1 {
@@ -278,13 +277,11 @@ func (x *Unit) evalBuiltin(st *State, call *ast.CallExpr, name string, n int) []
 		}
 		return nil
 	case "clear":
-		lv := x.lvalueOrNil(st, call.Args[0])
 		v := x.eval(st, call.Args[0])
-		if lv != nil {
-			if _, ok := under(v.Typ).(*types.Map); ok {
-				z := x.zero(v.Typ)
-				x.writeLV(st, lv, Val{x.u.MkMap(v.Sort, x.u.MapNil(v.T), IntLit(0), x.u.MapDom(z.T), x.u.MapVal(z.T)), v.Typ})
-			}
+		if _, ok := under(v.Typ).(*types.Map); ok {
+			x.writeLV(st, x.mapLV(v), Val{x.emptyMapContent(v.Typ), v.Typ})
+		} else {
+			x.unsupportedf(call, "clear of %v", v.Typ)
 		}
 		return nil
 	}
@@ -676,6 +673,12 @@ func (x *Unit) unknownCall(st *State, pc *preparedCall, name string, n int) []Va
 		}
 		if pt, ok := under(v.Typ).(*types.Pointer); ok {
 			x.havocPointee(st, v, pt.Elem())
+		}
+		if _, ok := under(v.Typ).(*types.Map); ok && !x.isGhostMap(v) {
+			lv := x.mapLV(v)
+			nc := x.fresh("mapcontent", lv.srt)
+			x.assume(st, Cmp(">=", x.u.MapLen(nc), IntLit(0)))
+			x.writeLV(st, lv, Val{nc, v.Typ})
 		}
 	}
 	if pc.recv != nil && !pc.iface {
@@ -1123,7 +1126,8 @@ func mergeSigNames(callSig, declSig *types.Signature) *types.Signature {
 }
 
 func (x *Unit) havocLV(st *State, lv *LV) {
-	v := Val{x.fresh("mod", x.u.SortOf(lv.typ)), lv.typ}
+	cur := x.readLV(st, lv)
+	v := Val{x.fresh("mod", cur.Sort), lv.typ}
 	x.writeLV(st, lv, v)
 	nv := x.readLV(st, lv)
 	x.assume(st, x.typeInv(st, nv, 0))
